@@ -30,6 +30,8 @@
 //	    | (opt T) | (nu T) | (type T) | (sens T) | (iter T)     Optional NotUndef Type Sensitive Iterable; default = [any]
 //	    | (rt xRUNTIME xNAME none) | (rt xRUNTIME xNAME (xPATTERN))     Runtime[runtime, name] / Runtime[runtime, name, Regexp[/pattern/]] without a Go
 //	                                type; (rt x x none) is the default Runtime.  No value term denotes a runtime value.
+//	    | (call P R B)              Callable: params, return and block type, each `none` (absent) or `(T)`; (call none none none) is the default
+//	                                Callable.  No value term denotes a lambda.
 //	    | (itr T)                   Iterator[T]; default = (itr any).  No value term denotes an iterator.
 //	    | (obj)                     the default Object type
 //	    | (obj N+)                  user object type named by its ancestor path, root first: (obj 1) = Lat::O1,
